@@ -289,7 +289,7 @@ def s_res(policies, seed=0, full=False):
 
 
 # conditional templates: list of node dicts builders
-def cond_templates(names=None):
+def cond_templates(names=None, extra=False):
     """Each template: (tag, nodes) where nodes is the 'graph' list of the workload."""
     T = []
 
@@ -350,16 +350,28 @@ def cond_templates(names=None):
              node("A1", ["J"], probability=0.5), node("B1", ["J"], probability=0.5),
              node("J", ["K"], terminal=True), node("P", ["K"]), node("K")]
     T.append(("side", nodes))
+    if extra:
+        # a branch head with a second, ordinary parent outside the conditional: the
+        # conditional's completion releases the chosen child although that other
+        # parent may still be running; only the readiness test at placement time keeps
+        # it from starting (only generated on request: C02)
+        nodes = [node("C", ["A1", "B1"], conditional=True), node("P", ["A1"]),
+                 node("A1", ["J"], probability=0.5), node("B1", ["J"], probability=0.5),
+                 node("J", [], terminal=True)]
+        T.append(("xparent", nodes))
     return T
 
 
 def s_cond(policies, seed=0, resolve_modes=(False, True), clusters=("1x1", "1x2", "2p"),
-           releases=("one", "two@0"), runtimes=(1, 2), orders=("fwd", "rev")):
+           releases=("one", "two@0"), runtimes=(1, 2), orders=("fwd", "rev"),
+           only=None):
     """`orders`: the order in which the nodes are *listed* in the workload file (the
     loader accepts any); 'rev' registers children before their parents and later
     conditionals before earlier ones."""
     templates = []
-    for tag, nodes in cond_templates():
+    for tag, nodes in cond_templates(extra=only is not None):
+        if only is not None and tag not in only:
+            continue
         templates.append((tag, nodes, nodes))
         if "rev" in orders and not tag.startswith("if2 p=(0.25") \
                 and not tag.startswith("if2 p=(1.0"):
